@@ -29,7 +29,7 @@ claimed = {
    text="Ring-level algebraic slot model of the real ckks.Evaluator (Add, Sub, Mul, MulRelin, Rescale): phase identities per limb with atoms for all coefficients and exact scale/level bookkeeping (big.Float as exact reals). Numeric precision, vector/complex scalar operands and the floating-point encoder are outside (not encodable).",
    ref="DESIGN.md §6-C06", technique="SSA symbolic execution in the algebraic slot model + SMT (LIA) on the normalised identities"),
  "C07": dict(
-   text="Integer (BGV/BFV) encoder from go/ssa. Plaintext-ring level in the algebraic slot model: DecodeRingT(EncodeRingT(v)) = v for all vector lengths and scales with every slot a free element of Z_t, unspecified slots decode to zero, encodings multiply slot-wise (real index permutation, real NTT over t as definition matrix). Word level: the scalar pipeline of Encode/Decode (reduction of arbitrary 64-bit and signed inputs, lifting t->Q with t^-1, basis extension back with the float correction under the rounding-error model, unscaling) returns the input modulo t, signed results centred, for every 64-bit input, every level, batched and coefficient domain (transforms replaced by identity stand-ins). Vector-length handling on concrete boundary vectors. The approximate (CKKS) encoder is outside: floating-point FFT.",
+   text="Integer (BGV/BFV) encoder from go/ssa. Plaintext-ring level in the algebraic slot model: DecodeRingT(EncodeRingT(v)) = v for all vector lengths and scales with every slot a free element of Z_t, unspecified slots decode to zero, encodings multiply slot-wise (real index permutation, real NTT over t as definition matrix). Word level: the scalar pipeline of Encode/Decode (reduction of arbitrary 64-bit and signed inputs, lifting t->Q with t^-1, basis extension back with the float correction under the rounding-error model, unscaling) returns the input modulo t, signed results centred, for every 64-bit input, every level, batched and coefficient domain (transforms replaced by identity stand-ins). Vector-length handling on concrete boundary vectors. The approximate (CKKS) encoder is outside: floating-point FFT. CKKS side, integer part only: SingleFloat64ToFixedPointCRT writes the residue of the rounded scaled value on every limb for every integer-valued input of either sign below 2^52 (float64 model in which these steps are exact); the floating-point embedding is not claimed.",
    ref="DESIGN.md §6-C07", technique="SSA symbolic execution: algebraic slot model for the ring-T part, word-level LIA/LRA with CRT ghost for the scalar pipeline + SMT"),
  "C08": dict(
    text="Stream-level symbolic execution of the real (de)serialisation code (ring.Poly through structs.Matrix/Vector and utils/buffer): round trip with all payload words symbolic through WriteTo/ReadFrom and MarshalBinary/UnmarshalBinary into fresh and reused receivers, announced size, every truncation point, corrupted length fields (classes small / negative / huge) with the allocation obligation on every symbolic make.",
